@@ -44,7 +44,8 @@ def materialise(path, blocks, placement, rng, coin='bitcoin', h0=0, decoys=(), e
                 d.raw(real, b'', at=big_offset[1] - 8)
                 d.ends[real] = big_offset[1] - 8
             if kind == 'blk':
-                offs[i] = d.place(real, blocks[i]['raw'])
+                # blocks[i]['size'], when present, is the length prefix to store (it is reported, not used for decoding)
+                offs[i] = d.place(real, blocks[i]['raw'], size=blocks[i].get('size'))
             else:
                 fb = foreign_block(rng)
                 d.place(real, fb['raw'])
